@@ -4,7 +4,12 @@ from .c09 import FC_TB, FC_ASSUME, _nontrivial
 PROPS = {"C11": dict(
     module="Proofs.Properties.C11",
     theorems=[
+        "Zrnt.Proofs.C11.inSubtreeIdx_eq_descendant",
+        "Zrnt.Proofs.C11.inSubtree_eq_descendant",
         "Zrnt.Proofs.C11.closestToSlot_eq_linear",
+        "Zrnt.Proofs.C11.unknown_reported",
+        "Zrnt.Proofs.C11.queries_total_unpruned",
+        "Zrnt.Proofs.C11.queries_after_prune_false",
     ],
     modes=[dict(name="fc11", stateful=True, max_shrinks=4,
                 nontrivial=_nontrivial(("chain", "closest", "canonat", "getslot", "insub", "search", "findhead", "nodes")))],
